@@ -196,6 +196,21 @@ impl JwkStorage for StrongholdStorage {
   async fn delete(&self, key_id: &KeyId) -> KeyStorageResult<()> {
     let stronghold = self.get_stronghold().await;
     let client = get_client(&stronghold)?;
+    // `delete_secret` reports whether the VAULT exists, not whether the record did: without this check deleting an
+    // unknown or already deleted key id succeeds as soon as any key was ever stored.
+    let location = Location::generic(
+      IDENTITY_VAULT_PATH.as_bytes().to_vec(),
+      key_id.to_string().as_bytes().to_vec(),
+    );
+    let exists = client.record_exists(&location).map_err(|err| {
+      KeyStorageError::new(KeyStorageErrorKind::Unspecified)
+        .with_custom_message("stronghold client error")
+        .with_source(err)
+    })?;
+    if !exists {
+      return Err(KeyStorageError::new(KeyStorageErrorKind::KeyNotFound));
+    }
+
     let deleted = client
       .vault(IDENTITY_VAULT_PATH.as_bytes())
       .delete_secret(key_id.to_string().as_bytes())
